@@ -7,7 +7,7 @@ PROP_FILE = 'Knee/Props/C19.lean'
 RULE = ('curves (dyadic families) x knee index sets K x expected point sets E (subsets of the curve\'s points, jittered points, duplicates competing for one '
         'knee, |K| != |E|, |K|+|E| <= n) x tolerances t from a grid and from the normalised distances of the input (exact ties distance == t) x 4 strategies. '
         'cm correspondence is oracle-fed (rows |x_K - px|/dx evaluated in float64 by the harness) and exact. Predicates on the REAL outputs: accounting '
-        'identities, greedy TP, score ranges, perfect detection, error scores against a reference nearest-neighbour matching. non-trivial = 0 < TP < |E| or '
+        'identities, greedy TP, score ranges, perfect detection, error scores against a reference nearest-neighbour matching AND against the exact-Q matching model (maeQ/mseQ2/rmspeSqQ; relational on (near-)equidistant neighbours). non-trivial = 0 < TP < |E| or '
         'a knee claimed twice; (curve, K, E, t) new')
 ASSUMPTIONS = ['|K| >= 1, |E| >= 1, |K|+|E| <= n; MCC only where its denominator is non-zero']
 
